@@ -213,7 +213,8 @@ Definition reopen (cfg : config) (st : tbstate) : tbstate * bool :=
   let '(id, tree, tsf) := newest_dump (s_folder st1, s_root st1, tsfile) (s_dumps st1) in
   let r0 := reload tree in
   let '(r1, m) := if node_ts r0 <? tsf then (set_node_ts r0 tsf, true) else (r0, false) in
-  ({| s_root := r1; s_mut := m; s_last := None; s_cnt_flush := 0; s_cnt_cleanup := 0; s_buffered := 0;
+  ({| s_root := r1; s_mut := m; s_last := Some r0 (* 18b7c7d: lastSnapRoot = the loaded root *);
+      s_cnt_flush := 0; s_cnt_cleanup := 0; s_buffered := 0;
       s_clog := if id =? s_folder st1 then s_clog st1 else 1;
       s_h0 := s_h0 st1; s_snaps := []; s_dumps := []; s_folder := id; s_tsfile := tsf |}, true).
 
